@@ -796,3 +796,85 @@ func EdgeBoxFile(o EdgeOpts) []byte {
 	}
 	return out
 }
+
+// RepeatOpts describes a CR3-shaped file that says the same thing many times: many CMT boxes
+// whose directories are full of long, overlapping ASCII values, many preview boxes that declare
+// more than they hold. Each piece is harmless; the question is what the sum costs.
+type RepeatOpts struct {
+	CMT      int    // CMT boxes inside the Canon uuid box
+	CMTType  int    // 0: all CMT1; 1: CMT1..CMT4 in turn
+	Tags     int    // ASCII entries per directory (string fields of that directory)
+	Count    uint32 // declared count of each entry
+	Step     int    // distance between the values of consecutive entries (1: overlapping)
+	Data     int    // bytes behind the directory
+	Big      bool   // byte order of the TIFF blocks
+	Prvw     int    // preview uuid boxes
+	PrvwIn   bool   // inside moov (else at top level)
+	PrvwSize uint32 // declared jpeg size of each PRVW box
+	PrvwData int    // bytes each PRVW box actually holds
+}
+
+var repeatTagIDs = [][]uint16{
+	{0x010f, 0x0110, 0x0131, 0x013b, 0x8298, 0x010e, 0x0132}, // IFD0: Make Model Software Artist Copyright ImageDescription DateTime
+	{0xa434, 0xa433, 0xa431, 0xa430, 0x9003, 0x9004, 0xa435}, // Exif: LensModel LensMake BodySerial Owner DateOrig DateDig LensSerial
+	{0x0006, 0x0007, 0x0095, 0x0096},                         // maker note: Canon strings
+	{0x001d, 0x0001, 0x0003, 0x0012},                         // GPS: DateStamp LatRef LonRef MapDatum
+}
+
+// RepeatCR3 builds the file described by o.
+func RepeatCR3(o RepeatOpts) []byte {
+	var bo binary.ByteOrder = binary.LittleEndian
+	if o.Big {
+		bo = binary.BigEndian
+	}
+	tiff := func(kind int) []byte {
+		n := o.Tags
+		b := make([]byte, 8+2+12*n+4+o.Data)
+		if o.Big {
+			copy(b, "MM\x00*")
+		} else {
+			copy(b, "II*\x00")
+		}
+		bo.PutUint32(b[4:], 8)
+		bo.PutUint16(b[8:], uint16(n))
+		dataOff := 8 + 2 + 12*n + 4
+		ids := repeatTagIDs[kind]
+		for i := 0; i < n; i++ {
+			p := 10 + 12*i
+			bo.PutUint16(b[p:], ids[i%len(ids)])
+			bo.PutUint16(b[p+2:], 2)
+			bo.PutUint32(b[p+4:], o.Count)
+			bo.PutUint32(b[p+8:], uint32(dataOff+i*o.Step))
+		}
+		for i := dataOff; i < len(b); i++ {
+			b[i] = "Canon EOS R5 lens 24-70mm F2.8 "[i%31]
+		}
+		return b
+	}
+	inner := Box("CNCV", []byte("CanonCR3_001/00.09.00/00.00.00"))
+	for i := 0; i < o.CMT; i++ {
+		k := 0
+		if o.CMTType == 1 {
+			k = i % 4
+		}
+		inner = append(inner, Box("CMT"+string(rune('1'+k)), tiff(k))...)
+	}
+	prvw := func() []byte {
+		p := Box("PRVW", be32(0), be16(1), be16(160), be16(120), be16(1), be32(o.PrvwSize), append([]byte{0xff, 0xd8, 0xff, 0xdb}, make([]byte, o.PrvwData)...))
+		return Box("uuid", uuidPreview, be32(0), be32(1), p)
+	}
+	moov := Box("uuid", uuidCanonMeta, inner)
+	var top []byte
+	for i := 0; i < o.Prvw; i++ {
+		if o.PrvwIn {
+			moov = append(moov, prvw()...)
+		} else {
+			top = append(top, prvw()...)
+		}
+	}
+	out := Box("ftyp", []byte("crx "), be32(1), []byte("crx isom"))
+	out = append(out, Box("moov", moov)...)
+	out = append(out, top...)
+	out = append(out, Box("mdat", make([]byte, 64))...)
+	return out
+}
